@@ -5,6 +5,7 @@ import (
 	"encoding/hex"
 	"fmt"
 	"math/rand/v2"
+	"os"
 	"runtime"
 	"sort"
 	"strings"
@@ -46,7 +47,7 @@ type Result struct {
 	Wall       time.Duration
 	Leaked     []string
 	Remaining  []string // goroutines of the bubble still alive after teardown
-	Internal   string // harness-internal error (exit 2 material)
+	Internal   string   // harness-internal error (exit 2 material)
 }
 
 // RunOptions selects how a run is driven.
@@ -86,6 +87,8 @@ func Run(t *testing.T, cfg RunConfig, prog *Program, opt RunOptions) (res *Resul
 	res.Wall = time.Since(t0)
 	return res
 }
+
+var debugFair = os.Getenv("SIM_DEBUG_FAIR") != ""
 
 func newWorld(cfg RunConfig, prog *Program) *World {
 	w := &World{Cfg: cfg, Prog: prog, byReq: map[proto.Message]*Call{}, probes: map[string]int{}, rules: map[string]*RuleStat{}, faults: map[string]int{}}
@@ -209,6 +212,11 @@ func (w *World) run(opt RunOptions, res *Result) {
 		res.Sample = w.sched.SiteHits
 	}
 
+	if os.Getenv("SIM_DUMP") != "" {
+		buf := make([]byte, 4<<20)
+		n := runtime.Stack(buf, true)
+		os.Stdout.Write(buf[:n])
+	}
 	// ---- teardown
 	w.teardown(res)
 }
@@ -234,6 +242,7 @@ func (w *World) extraMain() bool {
 // maxTime of simulated time has passed, or after maxSteps.
 func (w *World) settle(name string, openGates bool, minTime, maxTime time.Duration, maxSteps int, until func() bool) {
 	w.phase = name
+	w.net.AutoConnect = true
 	if openGates {
 		w.net.HealAll()
 		w.settling = true
@@ -250,6 +259,9 @@ func (w *World) settle(name string, openGates bool, minTime, maxTime time.Durati
 		acts := w.enabledActions(true)
 		if len(acts) > 0 {
 			i, _ := fc.Choose(w, acts)
+			if debugFair {
+				w.ev("fair", "%s", acts[i].Key)
+			}
 			acts[i].run(0)
 			idle = 0
 			continue
@@ -272,7 +284,7 @@ func (w *World) settle(name string, openGates bool, minTime, maxTime time.Durati
 			d = time.Millisecond
 		}
 		idle++
-		w.tick(d)
+		w.tickFair(d)
 	}
 	w.note("settle %s: step budget exhausted", name)
 }
@@ -281,6 +293,7 @@ func (w *World) settle(name string, openGates bool, minTime, maxTime time.Durati
 // If noClock is set the clock does not advance at all.
 func (w *World) grace(name string, noClock bool, maxTime time.Duration, maxSteps int, until func() bool) {
 	w.phase = name
+	w.net.AutoConnect = true
 	w.ev("phase", "%s", name)
 	fc := &fairChooser{last: map[string]int{}}
 	startT := w.simTime
@@ -296,6 +309,9 @@ func (w *World) grace(name string, noClock bool, maxTime time.Duration, maxSteps
 		acts := w.enabledActions(true)
 		if len(acts) > 0 {
 			i, _ := fc.Choose(w, acts)
+			if debugFair {
+				w.ev("fair", "%s", acts[i].Key)
+			}
 			acts[i].run(0)
 			idle = 0
 			continue
@@ -312,7 +328,38 @@ func (w *World) grace(name string, noClock bool, maxTime time.Duration, maxSteps
 			d = maxTime - el
 		}
 		idle++
-		w.tick(d)
+		w.tickFair(d)
+	}
+}
+
+// tickFair advances the clock by at most d, but stops as soon as something other than the
+// clock can act (a dial is pending, bytes are in flight, a task is runnable): in fair phases the
+// network is fast relative to every timer, so e.g. a connection attempt is never made to time
+// out merely because the simulator was in the middle of a long clock step.
+func (w *World) tickFair(d time.Duration) {
+	w.ev("tick", "d=%v (interruptible)", d)
+	slice := 250 * time.Microsecond
+	var el time.Duration
+	for el < d {
+		s := min(slice, d-el)
+		dials := w.net.Stats.Dials
+		time.Sleep(s)
+		el += s
+		w.simTime += s
+		synctest.Wait()
+		if len(w.net.Actions()) > 0 {
+			return
+		}
+		for _, ti := range w.sched.Parked() {
+			if ti.Enabled {
+				return
+			}
+		}
+		if w.net.Stats.Dials != dials {
+			slice = 250 * time.Microsecond
+		} else if slice < time.Second {
+			slice *= 2
+		}
 	}
 }
 
